@@ -123,7 +123,7 @@ def run(ctx):
         if res != want:
             ctx.mismatch("%s does not act row-wise" % kind, case, impl=res, model=mres, spec=want,
                          tag=("F10-join" if kind == "join" else None))
-        elif mres is not None and mres != want:
+        if mres is not None and mres != want:
             ctx.mismatch("model disagrees with implementation and definition on %s" % kind, case, impl=res, model=mres, spec=want,
                          failing_input=False, broken="corr:Ds.Prov.%s / theorem C12_%s" % (kind, kind))
         if ctx.elapsed() > (100 if ctx.tier == "quick" else 900):
